@@ -298,7 +298,6 @@ func (g *gen) anyMethodName() string {
 // stmt writes one statement (without the trailing newline).
 func (u *unitCtx) stmt(level int) {
 	t := u.g.t
-	w := u.w
 	k := rapid.IntRange(0, 13).Draw(t, "stmtKind")
 	if level >= 3 && k >= 8 {
 		k = k % 8
@@ -310,30 +309,154 @@ func (u *unitCtx) stmt(level int) {
 	switch k {
 	case 0, 1, 2, 3, 4, 5, 6, 7:
 		u.simpleStmt(level)
+	default:
+		u.compound(level, k)
+	}
+}
+
+// feature notes a generated shape in the unit's truth (once).
+func (u *unitCtx) feature(name string) {
+	for _, f := range u.truth.Features {
+		if f == name {
+			return
+		}
+	}
+	u.truth.Features = append(u.truth.Features, name)
+}
+
+// bodyOf writes the body of a loop or branch whose header has just been written: a block or,
+// with Opts.Loops, a single statement without braces (on the same or on the next line). It
+// reports whether the body was written without braces.
+func (u *unitCtx) bodyOf(level int) bool {
+	t := u.g.t
+	w := u.w
+	if u.g.o.Loops && rapid.IntRange(0, 4).Draw(t, "bracelessBody") == 4 {
+		if rapid.Bool().Draw(t, "bracelessNextLine") {
+			w.S("\n" + u.ind(level+1))
+		} else {
+			w.S(" ")
+		}
+		u.feature("braceless_body")
+		u.bracelessStmt(level + 1)
+		return true
+	}
+	w.S(" {")
+	u.blockWithReturn(level+1, "")
+	w.S(u.ind(level) + "}")
+	return false
+}
+
+// bracelessStmt writes a statement that may stand alone as the body of a loop or branch: no
+// declaration. Mostly a call; sometimes an assignment or another loop / branch (so that
+// `else if` chains and `for (...) if (...) call();` occur).
+func (u *unitCtx) bracelessStmt(level int) {
+	t := u.g.t
+	w := u.w
+	k := rapid.IntRange(0, 7).Draw(t, "bracelessKind")
+	switch {
+	case k >= 6 && level < 3:
+		nested := rapid.SampledFrom([]int{8, 13, 10, 9}).Draw(t, "bracelessNested")
+		u.feature("braceless_nested")
+		u.compound(level, nested)
+	case k == 5:
+		if v, ok := u.anyVar(func(v varInfo) bool { return v.cls < 0 && !v.ext && v.kind != "foreach" }); ok {
+			w.S(v.name + " = ")
+			u.expr(level, 1)
+			w.S(";")
+			return
+		}
+		fallthrough
+	default:
+		u.callExpr(level, 0)
+		w.S(";")
+	}
+}
+
+// foreachPlain are the element types of an enhanced for that are not project classes.
+var foreachPlain = []string{"int", "String", "long", "char", "int[]", "Object", "double", "Integer", "String[]", "List<String>"}
+
+// compound writes a loop, branch, switch or try statement; k is the statement kind (8..13).
+func (u *unitCtx) compound(level int, k int) {
+	t := u.g.t
+	w := u.w
+	loops := u.g.o.Loops
+	switch k {
 	case 8: // if / else
 		w.S("if (")
 		u.cond(level)
-		w.S(") {")
-		u.blockWithReturn(level+1, "")
-		w.S(u.ind(level) + "}")
+		w.S(")")
+		bare := u.bodyOf(level)
 		if rapid.Bool().Draw(t, "else") {
-			w.S(" else {")
-			u.blockWithReturn(level+1, "")
-			w.S(u.ind(level) + "}")
+			if bare && rapid.Bool().Draw(t, "elseOnNextLine") {
+				w.S("\n" + u.ind(level) + "else")
+			} else {
+				w.S(" else")
+			}
+			u.bodyOf(level)
 		}
 	case 9: // for
+		if c := u.collabFields(); loops && len(c) > 0 && rapid.IntRange(0, 2).Draw(t, "forVarProject") == 2 {
+			// the loop variable is a local variable of a project class, declared in the for header
+			// and visible in the header and the body only
+			ci := rapid.SampledFrom(c).Draw(t, "forVarClass")
+			xv := u.freshLocal()
+			if u.g.o.ScopedReuse {
+				// the loop variable may take the name of a field of another class type, which it then
+				// shadows in the header and the body, and only there
+				var shadow []string
+				for _, f := range u.fields {
+					inScope := false
+					for _, v := range u.scope {
+						if v.name == f.name {
+							inScope = true
+						}
+					}
+					if (f.ext || f.cls >= 0 && f.cls != ci) && !inScope {
+						shadow = append(shadow, f.name)
+					}
+				}
+				if len(shadow) > 0 && rapid.Bool().Draw(t, "forVarShadowsField") {
+					xv = rapid.SampledFrom(shadow).Draw(t, "forVarShadowed")
+					u.feature("for_init_var_shadows_field")
+				}
+			}
+			w.S("for (" + u.g.sigs[ci].name + " " + xv + " = ")
+			u.pending = xv
+			if rapid.Bool().Draw(t, "forVarNew") {
+				u.newExpr(level, 1, ci)
+			} else {
+				w.S("null")
+			}
+			u.pending = ""
+			w.S("; " + xv + " != null; " + xv + " = ")
+			u.feature("for_init_project_var")
+			u.scope = append(u.scope, varInfo{name: xv, kind: "local", typ: u.g.sigs[ci].name, cls: ci, decl: "forinit"})
+			if rapid.Bool().Draw(t, "forVarUpdateCall") {
+				// the iterator idiom: for (Node n = first; n != null; n = n.next())
+				w.S(xv + ".")
+				line, col := w.Line(), w.Col()
+				e := Event{Kind: "call", Line: line, Col: col, Recv: "local", Decl: "forinit", Resolve: true, ExpPkg: u.g.sigs[ci].pkg, ExpNode: u.g.sigs[ci].name}
+				e.Name, e.Target = u.calleeOf(ci)
+				w.S(e.Name)
+				u.event(e)
+				w.S("())")
+			} else {
+				w.S("null)")
+			}
+			u.bodyOf(level)
+			u.scope = u.scope[:len(u.scope)-1]
+			return
+		}
 		iv := u.g.names.Var(t)
-		w.S("for (int " + iv + " = 0; " + iv + " < 3; " + iv + "++) {")
+		w.S("for (int " + iv + " = 0; " + iv + " < 3; " + iv + "++)")
 		u.scope = append(u.scope, varInfo{name: iv, kind: "local", typ: "int", cls: -1})
-		u.blockWithReturn(level+1, "")
+		u.bodyOf(level)
 		u.scope = u.scope[:len(u.scope)-1]
-		w.S(u.ind(level) + "}")
 	case 10: // while
 		w.S("while (")
 		u.cond(level)
-		w.S(") {")
-		u.blockWithReturn(level+1, "")
-		w.S(u.ind(level) + "}")
+		w.S(")")
+		u.bodyOf(level)
 	case 11: // switch
 		w.S("switch (" + fmt.Sprint(rapid.IntRange(0, 3).Draw(t, "switchOn")) + ") {\n")
 		w.S(u.ind(level) + "case 1:\n" + u.ind(level+1))
@@ -356,19 +479,57 @@ func (u *unitCtx) stmt(level int) {
 		}
 	default: // for-each over a fresh list
 		c := u.collabFields()
-		if len(c) == 0 {
+		if len(c) == 0 && !loops {
 			u.simpleStmt(level)
+			return
+		}
+		elem := 0
+		if loops {
+			// 0-2: a project class (the plain variant); above: a primitive, array, String, boxed or generic element type
+			elem = rapid.IntRange(0, 2+len(foreachPlain)).Draw(t, "foreachElem")
+			if elem <= 2 && len(c) == 0 {
+				elem = 3
+			}
+		}
+		fin := ""
+		if loops && rapid.IntRange(0, 5).Draw(t, "foreachFinal") == 5 {
+			fin = "final "
+			u.feature("foreach_final_variable")
+		}
+		if elem > 2 {
+			typ := foreachPlain[elem-3]
+			if typ == "List<String>" {
+				if u.imports["java.util.List"] {
+					u.used["List"] = true
+				} else {
+					typ = "String"
+				}
+			}
+			switch typ {
+			case "int", "long", "char", "double":
+				u.feature("foreach_primitive_element")
+			case "int[]", "String[]":
+				u.feature("foreach_array_element")
+			default:
+				u.feature("foreach_library_element")
+			}
+			xv := u.freshLocal()
+			w.S("for (" + fin + typ + " " + xv + " : ")
+			u.expr(level, 2)
+			w.S(")")
+			u.scope = append(u.scope, varInfo{name: xv, kind: "foreach", typ: nb(typ), cls: -1})
+			u.bodyOf(level)
+			u.scope = u.scope[:len(u.scope)-1]
 			return
 		}
 		ci := rapid.SampledFrom(c).Draw(t, "foreachClass")
 		xv := u.freshLocal()
-		w.S("for (" + u.g.sigs[ci].name + " " + xv + " : ")
+		w.S("for (" + fin + u.g.sigs[ci].name + " " + xv + " : ")
 		u.expr(level, 2)
-		w.S(") {")
+		w.S(")")
 		u.scope = append(u.scope, varInfo{name: xv, kind: "foreach", typ: u.g.sigs[ci].name, cls: ci})
-		u.blockWithReturn(level+1, "")
+		u.bodyOf(level)
 		u.scope = u.scope[:len(u.scope)-1]
-		w.S(u.ind(level) + "}")
 	}
 }
 
@@ -378,9 +539,9 @@ func (u *unitCtx) wideStmt(level int) {
 	w := u.w
 	switch rapid.IntRange(0, 5).Draw(t, "wideStmtKind") {
 	case 0: // do-while
-		w.S("do {")
-		u.blockWithReturn(level+1, "")
-		w.S(u.ind(level) + "} while (")
+		w.S("do")
+		u.bodyOf(level)
+		w.S(" while (")
 		u.cond(level)
 		w.S(");")
 	case 1: // try-with-resources: the resource is a variable of the try statement
@@ -711,6 +872,18 @@ func (u *unitCtx) callExpr(level, depth int) {
 		k = 0
 	}
 	isObj := func(v varInfo) bool { return v.cls >= 0 || v.ext }
+	if u.g.o.SuperCallsDeclared && u.superIdx >= 0 && len(u.g.sigs[u.superIdx].methods) > 0 && rapid.IntRange(0, 5).Draw(t, "superDeclaredCall") == 5 {
+		// super.m() for a method the project superclass declares
+		sup := u.g.sigs[u.superIdx]
+		m := rapid.SampledFrom(sup.methods).Draw(t, "superMethod")
+		w.S("super.")
+		line, col := w.Line(), w.Col()
+		w.S(m.name)
+		u.event(Event{Kind: "call", Name: m.name, Line: line, Col: col, Recv: "super", Target: sup.full() + "." + m.name})
+		u.feature("super_call_of_declared_method")
+		u.args(level, depth, true)
+		return
+	}
 	if u.g.o.Wide && rapid.IntRange(0, 7).Draw(t, "wideCall") == 0 {
 		switch rapid.IntRange(0, 2).Draw(t, "wideCallKind") {
 		case 0: // call on a cast expression
@@ -792,7 +965,7 @@ func (u *unitCtx) callExpr(level, depth int) {
 		w.S(prefix + v.name)
 		w.S(rapid.SampledFrom([]string{".", ".", ".", " . ", "\n" + u.ind(level+2) + "."}).Draw(t, "dot"))
 		line, col := w.Line(), w.Col()
-		e := Event{Kind: "call", Line: line, Col: col, Recv: v.kind, FinalVar: v.final}
+		e := Event{Kind: "call", Line: line, Col: col, Recv: v.kind, FinalVar: v.final, Decl: v.decl}
 		if prefix != "" {
 			e.Recv = "thisfield"
 		}
